@@ -16,7 +16,7 @@ use chumsky_verif_harness::val::*;
 type BOp<'src, I, E> = pratt::Boxed<'src, 'src, I, Val, Ex<E>>;
 
 #[derive(Clone)]
-enum OpK {
+pub enum OpK {
     Infix(bool, u16),
     Prefix(u16),
     Postfix(u16),
@@ -74,7 +74,7 @@ fn build_table<'src, I: HInput<'src>, E: HErr<'src, I>>(
     build_table_in(id, atom, ops, &cx)
 }
 
-fn build_table_in<'src, I: HInput<'src>, E: HErr<'src, I>>(
+pub fn build_table_in<'src, I: HInput<'src>, E: HErr<'src, I>>(
     id: &str,
     atom: &G,
     ops: &[(OpK, G)],
@@ -99,6 +99,18 @@ fn build_table_in<'src, I: HInput<'src>, E: HErr<'src, I>>(
     a.pratt(bops).boxed()
 }
 
+pub fn read_op(rd: &mut Rd) -> Result<(OpK, G), String> {
+    let k = match rd.tok()? {
+        "infixl" => OpK::Infix(true, rd.nat()? as u16),
+        "infixr" => OpK::Infix(false, rd.nat()? as u16),
+        "prefix" => OpK::Prefix(rd.nat()? as u16),
+        "postfix" => OpK::Postfix(rd.nat()? as u16),
+        t => return Err(format!("bad pratt operator {t}")),
+    };
+    Ok((k, rd.g()?))
+}
+
+#[allow(dead_code)]
 pub fn main() {
     chumsky_verif_harness::run::install_panic_hook();
     let stdin = std::io::stdin();
@@ -135,14 +147,7 @@ pub fn main() {
             let n = rd.nat()?;
             let mut ops = Vec::new();
             for _ in 0..n {
-                let k = match rd.tok()? {
-                    "infixl" => OpK::Infix(true, rd.nat()? as u16),
-                    "infixr" => OpK::Infix(false, rd.nat()? as u16),
-                    "prefix" => OpK::Prefix(rd.nat()? as u16),
-                    "postfix" => OpK::Postfix(rd.nat()? as u16),
-                    t => return Err(format!("bad pratt operator {t}")),
-                };
-                ops.push((k, rd.g()?));
+                ops.push(read_op(&mut rd)?);
             }
             if rd.tok()? != "I" {
                 return Err("expected I".into());
